@@ -192,6 +192,7 @@ def run(ctx):
     import time
     tm = ctx.extra.setdefault("phase_seconds", {})
     t0 = time.time()
+    run_corpus(ctx, ctx.scratch)
 
     def lap(name):
         nonlocal t0
@@ -221,6 +222,27 @@ def run(ctx):
     part_writers(ctx, pq, rng, quick)
     lap("part_writers")
     pq.close()
+
+
+def run_corpus(ctx, scratch):
+    """minimised schedules that failed on earlier trees (corpus/C20/*.json) run first"""
+    import glob
+    from fastparquet import ParquetFile
+    n = 0
+    for f in sorted(glob.glob(os.path.join(C.VERIF, "corpus", "C20", "*.json"))):
+        case = json.load(open(f))["case"]
+        root = os.path.join(scratch, "corpus%d" % n)
+        os.makedirs(root)
+        n += 1
+        spec = case["dataset"]
+        path = conc.build_dataset(spec, root)
+        solo = Solo(path)
+        ctx.count("corpus", os.path.basename(f))
+        if case["mode"] == "forced":
+            check_pair(ctx, spec, path, solo, case["ops"], case["plan"], "corpus")
+        elif case["mode"] == "storm":
+            check_storm(ctx, spec, path, solo, case["ops"][0], case["ops"][1], case["every"], case["phase"])
+    ctx.extra["corpus_cases"] = n
 
 
 FIXED_OPS = [
